@@ -10,7 +10,8 @@
 //!   put:W:B:K:C:M:X:L      C = seed.len.framesize   M = `-` | `+`k=v,…   X = `-` | alg=hex,…   L = `-` | int
 //!   get:W:B:K:R            R = `-` | `i`first`-`[last] | `s`len
 //!   head:W:B:K  del:W:B:K  dels:W:B:K1,K2,…  cp:W:SB:SK:DB:DK
-//!   ls2:W:B:P:D:S:N  ls1:W:B:P:D:S:N      P,D,S opt; N = `-` | int
+//!   ls2:W:B:P:D:S:N  ls1:W:B:P:D:S:N      P,D,S opt; N = `-` | int   (answer: items:count:truncated:common prefixes:paging, paging =
+//!                          `P-` not truncated | `P1` the pages that follow the tokens / markers make up the whole listing | `P0` they do not)
 //!   mpc:W:B:K:M  mpu:W:B:K:U:N:C  mpcp:W:B:K:U:N:SB:SK:R  mpl:W:B:K:U  mpx:W:B:K:U:PL  mpa:W:B:K:U
 //!                          U = `u`n (n-th upload created in this history) | `g`hex (literal string)
 //!                          PL = `-` | `+`n,…  (an item `x` = missing part number)
@@ -438,15 +439,19 @@ impl Gen<'_> {
         // incl. prefixes that end inside a path segment which a directory name completes (di, dir/s, dir/su, x/y/, é)
         let prefixes = ["", "d/", "d", "d/g", "d/g/", "k-", "x/y/", "a", "zzz", "c.txt", "é", "di", "dir/s", "dir/su", "dir", "x", "dir/sub/"];
         let mut p: Option<String> = if self.rng.chance(2, 5) { None } else { Some(self.rng.pick(&prefixes).to_owned()) };
-        if !self.clean && self.rng.chance(1, 25) {
-            p = Some(self.rng.pick(&["/d", "d//e", "d/./"]).to_owned());
+        // prefixes that are no paths: plain string prefixes like any other; the backend still drops a leading '/' (open finding
+        // fs:list-prefix-as-path), so those only in wild histories
+        if self.rng.chance(1, 25) {
+            p = Some(if self.clean { self.rng.pick(&["d//e", "d/./", "dir//"]) } else { self.rng.pick(&["/d", "d//e", "d/./", "//dir/"]) }.to_owned());
         }
-        let d: Option<String> = if self.clean || self.rng.chance(3, 4) {
+        // delimiters: mostly '/', also ones that occur inside key segments, at the very start of the remainder, span a '/', are
+        // multi-byte, or empty (= none)
+        let d: Option<String> = if self.rng.chance(3, 4) {
             None
-        } else if self.rng.chance(5, 6) {
+        } else if self.rng.chance(2, 3) {
             Some("/".to_owned())
         } else {
-            Some("-".to_owned())
+            Some(self.rng.pick(&["-", "", ".", "/s", "ü", "d", "ir/"]).to_owned())
         };
         let s: Option<String> = if self.rng.chance(7, 10) {
             None
@@ -458,8 +463,10 @@ impl Gen<'_> {
         let count = self.sim.buckets.get(&b).map_or(0, BTreeMap::len);
         let n: Option<i32> = if self.rng.chance(7, 10) {
             None
-        } else if self.clean || self.rng.chance(1, 2) {
+        } else if self.rng.chance(1, 2) {
             Some(1000)
+        } else if self.rng.chance(1, 8) {
+            Some(self.rng.pick(&[0, -1]))
         } else {
             Some(self.rng.range(1, count as u64 + 1) as i32)
         };
@@ -889,6 +896,16 @@ fn creds(w: &str) -> Option<Credentials> {
     }
 }
 
+/// a listing answer: the canonical items (`hexkey=size`), the keys and the common prefixes
+#[allow(clippy::type_complexity)]
+fn listed(contents: Option<Vec<Object>>, common_prefixes: Option<Vec<CommonPrefix>>) -> (Vec<String>, Vec<Vec<u8>>, Vec<Vec<u8>>) {
+    let contents = contents.unwrap_or_default();
+    let items = contents.iter().map(|x| format!("{}={}", hs(x.key.as_deref().unwrap_or("")), opt_int(x.size))).collect();
+    let keys = contents.into_iter().map(|x| x.key.unwrap_or_default().into_bytes()).collect();
+    let cps = common_prefixes.unwrap_or_default().into_iter().filter_map(|c| c.prefix).map(String::into_bytes).collect();
+    (items, keys, cps)
+}
+
 fn req<T>(input: T, w: &str) -> S3Request<T> {
     S3Request {
         input,
@@ -1200,57 +1217,122 @@ async fn run_op(fs: &FileSystem, svc: &S3Service, ups: &mut Uploads, op: &str) -
             }
         }
         "ls2" => {
-            let mut b = ListObjectsV2Input::builder();
-            b.set_bucket(un_hs(a[2]));
-            b.set_prefix(un_opt_hs(a[3]));
-            b.set_delimiter(un_opt_hs(a[4]));
-            b.set_start_after(un_opt_hs(a[5]));
-            if a[6] != "-" {
-                b.set_max_keys(Some(a[6].parse().expect("max keys")));
-            }
-            match fs.list_objects_v2(req(b.build().unwrap(), w)).await {
+            let max: Option<i32> = if a[6] == "-" { None } else { Some(a[6].parse().expect("max keys")) };
+            let build = |token: Option<String>, max: Option<i32>| {
+                let mut b = ListObjectsV2Input::builder();
+                b.set_bucket(un_hs(a[2]));
+                b.set_prefix(un_opt_hs(a[3]));
+                b.set_delimiter(un_opt_hs(a[4]));
+                b.set_start_after(un_opt_hs(a[5]));
+                b.set_max_keys(max);
+                b.set_continuation_token(token);
+                b.build().unwrap()
+            };
+            match fs.list_objects_v2(req(build(None, max), w)).await {
                 Ok(r) => {
                     let o = r.output;
-                    let items: Vec<String> = o
-                        .contents
-                        .unwrap_or_default()
-                        .into_iter()
-                        .map(|x| format!("{}={}", hs(x.key.as_deref().unwrap_or("")), opt_int(x.size)))
-                        .collect();
-                    let cps: Vec<Vec<u8>> =
-                        o.common_prefixes.unwrap_or_default().into_iter().filter_map(|c| c.prefix).map(String::into_bytes).collect();
-format!(
-                        "ok:{}:{}:{}:{}",
-                        items.join(","),
-                        opt_int(o.key_count),
-                        i32::from(o.is_truncated.unwrap_or(false)),
-                        list_hex(&cps)
-                    )
+                    let (items, mut keys, mut cps) = listed(o.contents, o.common_prefixes);
+                    let truncated = o.is_truncated.unwrap_or(false);
+                    let first = format!("ok:{}:{}:{}:{}", items.join(","), opt_int(o.key_count), i32::from(truncated), list_hex(&cps));
+                    // a truncated page: follow the continuation tokens to the end (same request otherwise, as clients do); the pages
+                    // together must be the untruncated listing
+                    let paging = if !truncated || max.is_some_and(|n| n <= 0) {
+                        "P-"
+                    } else {
+                        let mut ok = true;
+                        let mut token = o.next_continuation_token;
+                        for page in 0.. {
+                            let Some(t) = token.take() else {
+                                ok = false; // truncated, but no token to go on with
+                                break;
+                            };
+                            match fs.list_objects_v2(req(build(Some(t), max), w)).await {
+                                Ok(r) if page < 500 => {
+                                    let (_, k, c) = listed(r.output.contents, r.output.common_prefixes);
+                                    keys.extend(k);
+                                    cps.extend(c);
+                                    if !r.output.is_truncated.unwrap_or(false) {
+                                        break;
+                                    }
+                                    token = r.output.next_continuation_token;
+                                }
+                                _ => {
+                                    ok = false;
+                                    break;
+                                }
+                            }
+                        }
+                        match fs.list_objects_v2(req(build(None, Some(i32::MAX)), w)).await {
+                            Ok(r) => {
+                                let (_, k, c) = listed(r.output.contents, r.output.common_prefixes);
+                                ok = ok && !r.output.is_truncated.unwrap_or(false) && k == keys && c == cps;
+                            }
+                            Err(_) => ok = false,
+                        }
+                        if ok { "P1" } else { "P0" }
+                    };
+                    format!("{first}:{paging}")
                 }
                 Err(e) => err_code(&e),
             }
         }
         "ls1" => {
-            let mut b = ListObjectsInput::builder();
-            b.set_bucket(un_hs(a[2]));
-            b.set_prefix(un_opt_hs(a[3]));
-            b.set_delimiter(un_opt_hs(a[4]));
-            b.set_marker(un_opt_hs(a[5]));
-            if a[6] != "-" {
-                b.set_max_keys(Some(a[6].parse().expect("max keys")));
-            }
-            match fs.list_objects(req(b.build().unwrap(), w)).await {
+            let max: Option<i32> = if a[6] == "-" { None } else { Some(a[6].parse().expect("max keys")) };
+            let build = |marker: Option<String>, max: Option<i32>| {
+                let mut b = ListObjectsInput::builder();
+                b.set_bucket(un_hs(a[2]));
+                b.set_prefix(un_opt_hs(a[3]));
+                b.set_delimiter(un_opt_hs(a[4]));
+                b.set_marker(marker);
+                b.set_max_keys(max);
+                b.build().unwrap()
+            };
+            match fs.list_objects(req(build(un_opt_hs(a[5]), max), w)).await {
                 Ok(r) => {
                     let o = r.output;
-                    let items: Vec<String> = o
-                        .contents
-                        .unwrap_or_default()
-                        .into_iter()
-                        .map(|x| format!("{}={}", hs(x.key.as_deref().unwrap_or("")), opt_int(x.size)))
-                        .collect();
-                    let cps: Vec<Vec<u8>> =
-                        o.common_prefixes.unwrap_or_default().into_iter().filter_map(|c| c.prefix).map(String::into_bytes).collect();
-                    format!("ok:{}:{}:{}:{}", items.join(","), items.len(), i32::from(o.is_truncated.unwrap_or(false)), list_hex(&cps))
+                    let (items, mut keys, mut cps) = listed(o.contents, o.common_prefixes);
+                    let truncated = o.is_truncated.unwrap_or(false);
+                    // ListObjects has no KeyCount member: the number of entries returned (keys + common prefixes)
+                    let first =
+                        format!("ok:{}:{}:{}:{}", items.join(","), items.len() + cps.len(), i32::from(truncated), list_hex(&cps));
+                    // a truncated page: go on from NextMarker (without one, from the last key returned) to the end
+                    let paging = if !truncated || max.is_some_and(|n| n <= 0) {
+                        "P-"
+                    } else {
+                        let mut ok = true;
+                        let mut marker = o.next_marker.or_else(|| keys.last().map(|k| String::from_utf8_lossy(k).into_owned()));
+                        for page in 0.. {
+                            let Some(m) = marker.take() else {
+                                ok = false;
+                                break;
+                            };
+                            match fs.list_objects(req(build(Some(m), max), w)).await {
+                                Ok(r) if page < 500 => {
+                                    let (_, k, c) = listed(r.output.contents, r.output.common_prefixes);
+                                    let last = k.last().map(|k| String::from_utf8_lossy(k).into_owned());
+                                    keys.extend(k);
+                                    cps.extend(c);
+                                    if !r.output.is_truncated.unwrap_or(false) {
+                                        break;
+                                    }
+                                    marker = r.output.next_marker.or(last);
+                                }
+                                _ => {
+                                    ok = false;
+                                    break;
+                                }
+                            }
+                        }
+                        match fs.list_objects(req(build(un_opt_hs(a[5]), Some(i32::MAX)), w)).await {
+                            Ok(r) => {
+                                let (_, k, c) = listed(r.output.contents, r.output.common_prefixes);
+                                ok = ok && !r.output.is_truncated.unwrap_or(false) && k == keys && c == cps;
+                            }
+                            Err(_) => ok = false,
+                        }
+                        if ok { "P1" } else { "P0" }
+                    };
+                    format!("{first}:{paging}")
                 }
                 Err(e) => err_code(&e),
             }
